@@ -232,7 +232,7 @@ def ref_apply(cfg, st, op):
             raise Reject("invalid bounds specification")
         name = op["name"]
         st["bounds"][name] = b
-        cur = {"var": None, "len_scale": st["len_scale"], "nugget": st["nugget"]}.get(name, st["opts"].get(name))
+        cur = {"var": None, "len_scale": st["len_scale"], "nugget": st["nugget"], "anis": st["anis"] or [1.0]}.get(name, st["opts"].get(name))
         if name == "var":
             m0 = build(cfg, {**st, "bounds": {}})
             cur = m0.var
@@ -342,6 +342,10 @@ def derived_checks(r, m, cfg, fresh, extra):
     if extra.get("opk") in ("dim", "rescale", "init"):
         kk = np.array([0.0, 0.4, 2.0])
         r.close("spectral_density == fresh", m.spectral_density(kk), fresh.spectral_density(kk), rtol=1e-12, atol=1e-300, **extra)
+    if cfg["cls"] not in SLOW_INT or extra.get("opk") in ("opt", "integral_scale", "init"):
+        r.close("integral_scale == fresh", m.integral_scale, fresh.integral_scale, rtol=1e-10, **extra)
+        r.close("integral_scale_vec == fresh", m.integral_scale_vec, fresh.integral_scale_vec, rtol=1e-10, **extra)
+        r.close("len_rescaled == fresh", m.len_rescaled, fresh.len_rescaled, rtol=1e-14, **extra)
     rng = np.random.RandomState(3)
     if cfg["latlon"]:
         pos = np.array([[10.0, -40.0, 80.0], [20.0, 170.0, -100.0]] + ([[0.0, 1.0, 2.5]] if cfg["temporal"] else []))
@@ -367,11 +371,11 @@ def case_step(case):
         mc = copy.deepcopy(m)
         r.true("deepcopy == model", bool(mc == m), **{"opk": "init"})
         return r.done(outcome=canon(cfg, st))
-    _touch(m)
+    _touch(m, hist[0])
     for i, op in enumerate(hist):
         last = i == len(hist) - 1
         if i:
-            _touch(m)
+            _touch(m, op)
         if op["k"] == "integral_scale" and st["opts"].get("len_low", 0.0) > 0:
             # TPL models with a lower cut-off: integral scale is not proportional to len_scale and
             # the library documents that it may refuse ("please provide a len_scale")
@@ -465,18 +469,24 @@ def case_step(case):
                 b = new["bounds"].get({"var_raw": "var"}.get(fname, fname))
                 if b is not None:
                     val = m.var if fname == "var_raw" else getattr(m, fname)
-                    r.true("value reset by set_arg_bounds lies inside the new bounds", _in_bounds(val, b), info={"val": float(val), "b": b}, **extra)
+                    r.true("value reset by set_arg_bounds lies inside the new bounds", _in_bounds(val, b), info={"val": np.asarray(val, dtype=float).tolist(), "b": b}, **extra)
         new.pop("_int_target", None)
         return r.done(outcome=canon(cfg, new))
     return r.done(outcome=canon(cfg, st))
 
 
-def _touch(m):
+SLOW_INT = ("JBessel", "TPLStable")  # integral scale by quadrature of a slow correlation (40 ms)
+
+
+def _touch(m, op=None):
     """use the model between the steps (anything cached by an evaluation must not survive a change)"""
     try:
         m.variogram(LAGS)
         m.cor(LAGS)
         m.spectral_density(np.array([0.5]))
+        if m.name not in SLOW_INT or (op or {}).get("k") in ("opt", "integral_scale"):
+            m.integral_scale
+            m.integral_scale_vec
     except Exception:
         pass
 
@@ -490,6 +500,8 @@ def _fill_free(m, new, free):
             new["len_scale"] = float(m.len_scale)
         elif f == "nugget":
             new["nugget"] = float(m.nugget)
+        elif f == "anis":
+            new["anis"] = [float(a) for a in m.anis]
         else:
             new["opts"][f] = float(getattr(m, f))
     return new
@@ -523,9 +535,9 @@ def ops_for(cfg, tier="quick"):
     for v in [0.5, 3.0, -1.0, 0.0]:
         A({"k": "var", "v": v})
     A({"k": "var_raw", "v": 1.5})
-    for v in [0.7, [2.0, 1.0], [2.0, 1.0, 4.0], [1.0, 2.0, 3.0, 0.5], 0.0, [1.0, 0.0]]:
+    for v in [0.7, [2.0, 1.0], [2.0, 1.0, 4.0], [1.0, 2.0, 3.0, 0.5], 0.0, [1.0, 0.0], [2.0, 0.1]]:
         A({"k": "len_scale", "v": v})
-    for v in [0.25, [0.5, 2.0], [0.0, 1.0], [2.0, 0.5, 3.0]]:
+    for v in [0.25, [0.5, 2.0], [0.0, 1.0], [2.0, 0.5, 3.0], [0.5, 20.0]]:
         A({"k": "anis", "v": v})
     for v in [0.4, [0.1, 0.2, 0.3], [0.0]]:
         A({"k": "angles", "v": v})
@@ -542,11 +554,12 @@ def ops_for(cfg, tier="quick"):
     else:
         A({"k": "dim", "v": 2})
     if cfg["cls"] != "JBessel":  # oscillating correlation: integral scale not absolutely convergent
-        for v in [2.0, [2.0, 1.0]]:
+        for v in [2.0, [2.0, 1.0], [2.0, 0.1]]:
             A({"k": "integral_scale", "v": v})
     for v in [2.0, -3.0]:
         A({"k": "rescale", "v": v})
     A({"k": "bounds", "name": "var", "b": [2.5, 10.0]})
+    A({"k": "bounds", "name": "anis", "b": [0.1, 10.0]})
     A({"k": "bounds", "name": "len_scale", "b": [0.01, 100.0, "oo"]})
     A({"k": "bounds", "name": "nugget", "b": [0.0, 0.3, "co"], "via": "property"})
     A({"k": "bounds", "name": "var", "b": [0.5, 3.0, "oc"]})
